@@ -205,6 +205,19 @@ def test_one_field_variants_and_array_owners():
     assert M.arrays_used(('TS', 2, 'float64', 'W', ('W', 'ArrT', 'A2', 2.0), 2.0)) == ['A2']
 
 
+def test_near_miss_shapes():
+    nm = M.near_miss_shapes
+    assert nm((3, 1)) == [(1, 3), (3,), (1, 3, 1), (1, 1, 3, 1), (3, 1, 1)]
+    assert (3,) in nm((1, 3)) and (3, 1) in nm((1, 3))          # fewer leading ones / moved one
+    assert (2, 3) in nm((2, 1, 3)) and (1, 2, 3) in nm((2, 1, 3)) and (2, 3, 1) in nm((2, 1, 3))
+    assert nm(()) == [(1,), (1, 1)]
+    for sh in [(3, 1), (1, 3), (2, 1, 3), (2, 2), (3,), (1, 1, 3)]:
+        for w in nm(sh):
+            assert w != sh and int(np.prod(w)) == int(np.prod(sh))
+    names = set(M.name(r) for r in M.universe('quick'))
+    assert 'TS([3,1],float64,None,None,2.0)' in names and 'TS([2,1,3],float64,None,None,2.0)' in names
+
+
 if __name__ == '__main__':
     for name, f in sorted(globals().items()):
         if name.startswith('test_'):
